@@ -180,6 +180,7 @@ def run(report, index, tier):
                  where='lexers/es5.py:t_%s' % name)
     from .litlang import literal_rule
     literal_rule(report, index, M, 'R06.5')
+    context_free_rule(report, M, 'R06.6')
     # R06.3 ---------------------------------------------------------------
     r3 = report.rule('R06.3', 'ordered choice == longest match; keywords '
                      'exact', floor=1000)
@@ -224,6 +225,45 @@ def run(report, index, tier):
         'CPython re._parser', 'transcription of ply.lex rule ordering '
         '(functions by line, strings by decreasing regex length)',
         'ES5 7.2/7.3/7.4/7.6.1 reference sets']
+
+
+def context_free_rule(report, M, rid):
+    """a punctuator rule matches its lexeme whatever follows: the pattern
+    (a constant of the repository) is applied, with the flags ply uses, to
+    the lexeme followed by every probe character and by nothing.  A
+    look-ahead that makes `++` refuse to match before `+` breaks the
+    longest-match reading of 7.7 without changing the rule's language.
+    GETPROP / SETPROP are contextual by design and decided by R03.3."""
+    import re as _re
+    lm = M.lexmodel
+    r = report.rule(rid, 'fixed-lexeme token rules match their lexeme in '
+                    'every right context', floor=40)
+    probes = [chr(c) for c in range(32, 127)] + list(
+        '\n\r\t\u2028\u00e9\u1885') + ['']
+    for rule in lm.rules:
+        if rule.state != 'INITIAL' or rule.type in ('GETPROP', 'SETPROP'):
+            continue
+        lexeme = lm.fixed.get(rule.type)
+        if not lexeme or not isinstance(rule.pattern, str):
+            continue
+        try:
+            rx = _re.compile(rule.pattern, _re.VERBOSE)
+        except _re.error as e:
+            raise AnalysisError('token rule %s does not compile: %s' % (
+                rule.name, e))
+        bad = []
+        for f in probes:
+            m = rx.match(lexeme + f)
+            if m is None or m.end() != len(lexeme):
+                bad.append(f)
+        r.check(not bad, 'rule %s context free' % rule.type,
+                '%s = %r' % (rule.name, rule.pattern),
+                'does not match its lexeme %r when followed by %s: the '
+                'longest punctuator at that place is not the token '
+                'produced' % (lexeme, ', '.join(repr(b) for b in bad[:6])),
+                where='lexers/es5.py:%s' % rule.name,
+                witness='a%s%sb' % (lexeme, bad[0] if bad else ''))
+    return r
 
 
 def line_index_rule(report, index, rid, LA=None):
@@ -331,7 +371,8 @@ def line_index_rule(report, index, rid, LA=None):
             multiline))
     for ttype in sorted(multiline):
         lexer = Obj('Lexer', newline_idx=[0], last_newline_lexpos=0,
-                    lexer=Obj('PlyLexer', lineno=1))
+                    lexer=Obj('PlyLexer', lineno=1, lexpos=4,
+                              lexdata='0123a\nb'))
         tok = Obj('LexToken', type=ttype, value='a\nb', lexpos=4, lineno=1)
         lexer.lexer.token = ('pyfunc', lambda tok=tok: tok)
         ev = Evaluator(mod, 'Lexer', methods, {
@@ -352,10 +393,78 @@ def line_index_rule(report, index, rid, LA=None):
                  'returned, line start [6], one new line, column 5): every '
                  'later line:column is wrong' % (ttype, got),
                  where='lexers/es5.py:get_lexer_token')
+    # a whole text, token by token: every token gets the column ES5 line
+    # counting gives its offset, and the line index ends up with every
+    # line start (each terminator kind alone in a token, CRLF inside a
+    # comment, a continuation inside a string); the ply lexer object is a
+    # stand-in that hands out the raw tokens of the text
+    import re as _re
+    pieces = [('ID', 'a'), ('LINE_TERMINATOR', '\u2028'),
+              ('BLOCK_COMMENT', '/*x\r\ny*/'), ('ID', 'b'),
+              ('LINE_TERMINATOR', '\r'), ('STRING', '"s\\\n t"'),
+              ('LINE_TERMINATOR', '\u2029'), ('ID', 'c'),
+              ('BLOCK_COMMENT', '/*\u2028*/'), ('ID', 'd'),
+              ('LINE_TERMINATOR', '\r\n'), ('ID', 'e'),
+              ('LINE_TERMINATOR', '\n'), ('BLOCK_COMMENT', '/*\x0c\x85*/'),
+              ('ID', 'f')]
+    text = ''.join(v for _t, v in pieces)
+    starts = [0] + [m.end() for m in _re.finditer(
+        '\r\n|[\n\r\u2028\u2029]', text)]
+    raw = []
+    pos = 0
+    for t, v in pieces:
+        raw.append(Obj('LexToken', type=t, value=v, lexpos=pos, lineno=0))
+        pos += len(v)
+    ply = Obj('PlyLexer', lineno=1, lexpos=0, lexdata=text)
+    queue = list(raw)
+
+    def next_raw():
+        if not queue:
+            return None
+        t_ = queue.pop(0)
+        t_.lineno = ply.lineno
+        ply.lexpos = t_.lexpos + len(t_.value)
+        return t_
+    ply.token = ('pyfunc', next_raw)
+    from .c04 import mk_lexer_obj
+    lexer = mk_lexer_obj(lm=lm)
+    lexer.lexer = ply
+    problems = []
+    try:
+        for t_ in raw:
+            ev = Evaluator(mod, 'Lexer', methods, {
+                'zip': zip, 'iter': iter, 'len': len})
+            ret, _ = ev.call(glt, [], self_obj=lexer)
+            line = max(i for i, s0 in enumerate(starts)
+                       if s0 <= t_.lexpos) + 1
+            want_col = t_.lexpos - starts[line - 1] + 1
+            if ret is not t_:
+                problems.append('token %r is not returned' % (t_.value,))
+            elif not t_.has('colno') or t_.colno != want_col or \
+                    t_.lineno != line:
+                problems.append('%s %r at offset %d gets line %s column '
+                                '%s, ES5 counting gives %d:%d' % (
+                                    t_.type, t_.value, t_.lexpos, t_.lineno,
+                                    t_.colno if t_.has('colno') else None,
+                                    line, want_col))
+        if list(lexer.newline_idx) != starts:
+            problems.append('the line index ends as %r, the lines of the '
+                            'text start at %r' % (list(lexer.newline_idx),
+                                                  starts))
+    except Raised as e:
+        problems.append('raises %s' % e.text)
+    r4.check(not problems, 'line and column of every token of a text',
+             'get_lexer_token() over %r' % text,
+             '; '.join(problems[:3]),
+             where='lexers/es5.py:get_lexer_token / _get_colno / '
+             '_update_newline_idx', witness=text)
     gc = need_function(mod, '_get_colno_lexpos', 'Lexer')
     for last, lexpos, want in ((0, 0, 1), (0, 5, 6), (12, 12, 1),
                                (12, 20, 9)):
-        lexer = Obj('Lexer', newline_idx=[0, last] if last else [0])
+        data = ('x' * (last - 1) + '\u2029' if last else '') + 'y' * 30
+        lexer = Obj('Lexer', newline_idx=[0, last] if last else [0],
+                    lexer=Obj('PlyLexer', lexdata=data, lexpos=lexpos,
+                              lineno=2 if last else 1))
         ev = Evaluator(mod, 'Lexer', methods, {})
         got, _ = ev.call(gc, [lexpos], self_obj=lexer)
         r4.check(got == want, '_get_colno_lexpos(%d|%d)' % (last, lexpos),
